@@ -241,6 +241,28 @@ class ExecBase:
         _, val = self.dict_fns(d.kind)
         return self.w.wrap(d.kind[2], val(st.version("dict"), d.t, self.dict_key(d, k)))
 
+    def dict_keys(self, st, d):
+        """d.keys() as a sequence (insertion order: unknown but fixed for a dictionary state): pairwise different keys, exactly the
+        keys the dictionary has"""
+        w = self.w
+        has, _ = self.dict_fns(d.kind)
+        ksort = w.sort_of(d.kind[1])
+        S = w.seq_sort(ksort)
+        f = w.uf(f"dict_keys:{ksort}", z3.IntSort(), w.Ref, S)
+        ver = st.version("dict")
+        K = f(ver, d.t)
+        ikey = ("dkeys", K.get_id())
+        if ikey not in st.inst:
+            st.inst.add(ikey)
+            a, b = z3.Ints(f"{w.fresh_name('ka')} {w.fresh_name('kb')}")
+            kk = z3.Const(w.fresh_name("kk"), ksort)
+            st.assume(SLen(K) >= 0)
+            st.assume(z3.ForAll([a, b], z3.Implies(z3.And(0 <= a, a < b, b < SLen(K)), SAt(K, a) != SAt(K, b))))
+            st.assume(z3.ForAll([a], z3.Implies(z3.And(0 <= a, a < SLen(K)), has(ver, d.t, SAt(K, a))), patterns=[SAt(K, a)]))
+            st.assume(z3.ForAll([kk], z3.Implies(has(ver, d.t, kk), z3.Exists([a], z3.And(0 <= a, a < SLen(K), SAt(K, a) == kk))),
+                                patterns=[has(ver, d.t, kk)]))
+        return V(("seq", d.kind[1]), K)
+
     def dict_store(self, st, d, k, v):
         """d[k] = v : the (has, val) functions of d's family change at (d, k) only; every other dictionary family is unchanged"""
         w = self.w
